@@ -359,6 +359,7 @@ def make_handler(rt):
             k: v for k, v in p.items() if k in SCALARS}, 'ptrs': ptrs,
             'gil_released': st.ghost.get('gil_released', False)},
             list(st.path()), node.get('line')))
+        st.calls[-1].site = (node.get('line'), (node.get('off') or (0, 0))[0])
         if rt.ret == 'real':
             # named by the call site and by how often the path has been
             # there: a statement re-executed after a fork regenerates the
@@ -367,8 +368,9 @@ def make_handler(rt):
                    (node.get('off') or (0, 0))[0])
             cnt = st.ghost.get(key, 0)
             st.ghost[key] = cnt + 1
-            return FltV(z3.Real('ret_%s@%s.%s#%d' % (rt.name, key[2], key[3],
-                                                      cnt)), 'double')
+            st.calls[-1].ret = FltV(z3.Real('ret_%s@%s.%s#%d' % (
+                rt.name, key[2], key[3], cnt)), 'double')
+            return st.calls[-1].ret
         if rt.ret == 'index':
             r = ex.fresh_int('ret_' + rt.name, 'int')
             ex.axioms.append(z3.And(r.t >= 0, z3.Or(r.t <= ip['n'],
